@@ -81,7 +81,12 @@ to (not including) `unary`, and for every plain infix operator the rung whose lo
 the numbering of the tie (`vlib/laddercorr.py`) -/
 def chainOps : List String :=
   ["BIN_OR", "BIN_AND", "BIN_LOGIC_OR", "BIN_LOGIC_XOR", "BIN_LOGIC_AND", "BIN_PLUS", "BIN_MINUS", "BIN_CONCAT",
-   "BIN_MULT", "BIN_DIV", "BIN_MOD"]
+   "BIN_MULT", "BIN_DIV", "BIN_MOD",
+   -- operators with a closing word behind the right operand (`… ist`, `… Bit nach Links / Rechts verschoben`)
+   "BIN_GREATER", "BIN_LESS", "BIN_GREATER_EQ", "BIN_LESS_EQ", "BIN_LEFT_SHIFT", "BIN_RIGHT_SHIFT"]
+
+/-- the operators of `chainOps` that have a closing word -/
+def chainClosed (o : Nat) : Bool := decide (11 ≤ o ∧ o < 17)
 
 /-- prefix operators handled by `unary` calling itself -/
 def prefixOps : List String := ["UN_NOT", "UN_LOGIC_NOT", "UN_ABS", "UN_LEN"]
@@ -102,6 +107,6 @@ def chainLevel (o : Nat) : Nat :=
   | none => chainCount
 
 /-- the table of the DDP in /repo -/
-def ddpTbl : DDP.LadderParse.Tbl := ⟨chainCount, chainLevel⟩
+def ddpTbl : DDP.LadderParse.Tbl := ⟨chainCount, chainLevel, chainClosed⟩
 
 end DDP.Ladder
